@@ -65,7 +65,9 @@ ReplyBytes(kind, o) ==
     [] OTHER            -> <<>>
 HasReply(o)   == o \in {"Pos", "PosUnser", "Neg", "Mismatch", "Malformed"}
 Returns(o)    == o \in {"Pos", "PosUnser", "Neg"}
-Env(o)        == IF o = "cancel" THEN "cancel" ELSE IF Returns(o) THEN "ret" ELSE "exc"
+\* "Cut": the caller wrapped the call in a timeout of its own (asyncio.wait_for, as ECU.wait_for_ecu does with its
+\* pings) which fired while the request was on the wire; the call is cancelled, the run goes on
+Env(o)        == IF o = "cancel" THEN "cancel" ELSE IF o = "Cut" THEN "cut" ELSE IF Returns(o) THEN "ret" ELSE "exc"
 
 \* ECU.update_state: driven by positive replies only
 Updated(st, kind, o) ==
@@ -107,7 +109,7 @@ Send ==                           \* transport.write: the request is on the wire
 Row(o, now) ==
   [okDecode |-> TRUE, req |-> ReqBytes(cur.kind),
    hasResp |-> HasReply(o), resp |-> ReplyBytes(cur.kind, o),
-   hasExc |-> ~Returns(o) /\ o # "cancel",
+   hasExc |-> ~Returns(o) /\ o \notin {"cancel", "Cut"},
    st |-> IF Dev_StateAfterUpdate THEN Updated(cstate, cur.kind, o) ELSE cstate,
    mode |-> IF cur.ana THEN "emphasized" ELSE "implicit",
    send |-> cur.t0, hasRecv |-> Returns(o), recv |-> now]
